@@ -3,6 +3,7 @@ from __future__ import annotations
 
 import contextlib
 import os
+import io
 import posixpath
 import tempfile
 
@@ -747,8 +748,95 @@ def check_targets(ctx, n):
     return found
 
 
+CLI_CASES = [("sub", "here.txt"), ("sub", "./here.txt"), ("sub/deep", "../x/"), ("", "out.txt"), ("sub", "../top.txt"),
+             ("sub", "d/e/"), ("sub/deep", "../../a/b.txt")]
+
+
+class _StopBuild(Exception):
+    pass
+
+
+def run_cli_build(root, sub, raws):
+    """The REAL `stepup build` entry tui._async_build, started in root/sub with STEPUP_ROOT=root, up to the point
+    where the director's command line is built: `_build_director_argv` is replaced by a recorder that raises, so
+    no director is started; everything before it (get_stepup_root, the cd to the root, the plan.py check,
+    _normalize_targets wherever it is called, the reporter server) runs as it is.  Returns (targets, target_dirs)."""
+    import argparse
+    import asyncio
+    from stepup.core import tui
+    seen = {}
+
+    def recorder(args, targets, target_dirs, *a, **kw):
+        seen["targets"] = [str(t) for t in targets]
+        seen["target_dirs"] = [str(t) for t in target_dirs]
+        raise _StopBuild()
+
+    saved = tui._build_director_argv
+    saved_cwd = os.getcwd()
+    saved_env = {k: os.environ.get(k) for k in ("STEPUP_ROOT", "HERE")}
+    tui._build_director_argv = recorder
+    try:
+        os.environ["STEPUP_ROOT"] = root
+        os.environ.pop("HERE", None)
+        os.chdir(os.path.join(root, sub) if sub else root)
+        args = argparse.Namespace(targets=list(raws), progress=False)
+        with contextlib.redirect_stdout(io.StringIO()):
+            try:
+                asyncio.run(asyncio.wait_for(tui._async_build(args), 60))
+            except _StopBuild:
+                pass
+    finally:
+        tui._build_director_argv = saved
+        os.chdir(saved_cwd)
+        for k, v in saved_env.items():
+            if v is None:
+                os.environ.pop(k, None)
+            else:
+                os.environ[k] = v
+    return seen.get("targets"), seen.get("target_dirs")
+
+
+def check_cli_call_site(ctx, cases=CLI_CASES):
+    """`stepup build <target>` typed in a sub-directory of the project: the target handed to the director must
+    designate, from the root, the file the user named from where the command was typed.  Implementation only, real
+    temporary project (plan.py in the root), the process really changes directory as the CLI does."""
+    found = {}
+    with tempfile.TemporaryDirectory(prefix="c20-cli-") as tmp:
+        root = os.path.realpath(os.path.join(tmp, "proj"))
+        os.makedirs(os.path.join(root, "sub", "deep"))
+        with open(os.path.join(root, "plan.py"), "w") as fh:
+            fh.write("#!/usr/bin/env python3\n")
+        os.chmod(os.path.join(root, "plan.py"), 0o755)
+        for sub, raw in cases:
+            wit = {"cli": {"typed_in": sub or ".", "raw": raw}}
+            try:
+                files, dirs = run_cli_build(root, sub, [raw])
+            except Exception as e:  # noqa: BLE001
+                found.setdefault("oracle:targets:call-site:raises",
+                                 (f"`stepup build {raw}` typed in <root>/{sub}: {type(e).__name__}: {e}", wit))
+                continue
+            if files is None:
+                found.setdefault("oracle:targets:call-site:not-reached",
+                                 (f"`stepup build {raw}`: the director command line was never built", wit))
+                continue
+            ctx.case(("cli-target", sub, raw), bool(sub))
+            got = dirs if raw.endswith("/") else files
+            other = files if raw.endswith("/") else dirs
+            meant = lex(lex(root, sub) if sub else root, raw)
+            if other or len(got) != 1:
+                found.setdefault("oracle:targets:call-site:classification",
+                                 (f"`stepup build {raw}` typed in <root>/{sub}: files={files} dirs={dirs}", wit))
+            elif lex(root, got[0]) != meant:
+                found.setdefault("oracle:targets:call-site:same-file",
+                                 (f"`stepup build {raw}` typed in <root>/{sub or '.'} names {os.path.relpath(meant, root)!r} "
+                                  f"(root-relative); the director is given target {got[0]!r}", wit))
+    return found
+
+
 def oracle(ctx):
     ensure_facts(ctx, "oracle")
+    for sig, (detail, witness) in sorted(check_cli_call_site(ctx).items()):
+        ctx.add_failure("oracle", sig, sig, detail, witness=witness)
     for sig, (detail, witness) in sorted(check_targets(ctx, ctx.scale(400, 5000)).items()):
         ctx.add_failure("oracle", sig, sig, detail, witness=witness)
     found = run_oracle(ctx, ctx.scale(1500, 20000))
@@ -777,6 +865,7 @@ def search(ctx):
     ensure_facts(ctx, "search")
     found = run_oracle(ctx, 40000 if ctx.thorough() else 12000)
     found.update(check_targets(ctx, 4000))
+    found.update(check_cli_call_site(ctx))
     for sig, (detail, witness) in sorted(found.items()):
         ctx.add_failure("oracle", sig, sig + ":search", detail, witness=witness)
 
@@ -785,7 +874,11 @@ def replay(ctx, obj):
     w = obj["failure"].get("witness") or {}
     ensure_facts(ctx, "replay")
     print("replaying", w)
-    if "targets" in w:
+    if "cli" in w:
+        c = w["cli"]
+        for sig, (detail, witness) in sorted(check_cli_call_site(ctx, [("" if c["typed_in"] == "." else c["typed_in"], c["raw"])]).items()):
+            ctx.add_failure("oracle", sig, sig, detail, witness=witness)
+    elif "targets" in w:
         t = w["targets"]
         from path import Path
         from stepup.core.tui import _normalize_targets
